@@ -2,6 +2,7 @@
 package c14
 
 import (
+	"io"
 	"fmt"
 	"net"
 	"sync"
@@ -323,6 +324,8 @@ func TestClientWatchdogAndBackoff(t *testing.T) {
 
 type HCase struct {
 	Outages []int `json:"outages_ms"` // server down for this long, then restarted on the same ports
+	Kinds   []string `json:"kinds"`   // per outage: "down" (nothing listens) | "blackhole" (something accepts, swallows everything, never answers or closes)
+	TLS     bool  `json:"tls"`
 	UpMs    int   `json:"up_ms"`
 	TCPMux  bool  `json:"tcpmux"`
 	Proxies int   `json:"proxies"`
@@ -333,7 +336,9 @@ func genHeal(t *rapid.T) HCase {
 	n := rapid.IntRange(1, 2).Draw(t, "n")
 	for i := 0; i < n; i++ {
 		c.Outages = append(c.Outages, rapid.SampledFrom([]int{0, 300, 1500, 4000}).Draw(t, fmt.Sprintf("o%d", i)))
+		c.Kinds = append(c.Kinds, rapid.SampledFrom([]string{"down", "down", "blackhole"}).Draw(t, fmt.Sprintf("k%d", i)))
 	}
+	c.TLS = rapid.Bool().Draw(t, "tls")
 	return c
 }
 
@@ -380,10 +385,19 @@ func runHeal(c HCase) error {
 	}
 	common := fx.BaseClientConfig(s)
 	common.Transport.TCPMux = lo.ToPtr(c.TCPMux)
-	common.Transport.TLS.Enable = lo.ToPtr(false)
+	common.Transport.TLS.Enable = lo.ToPtr(c.TLS)
 	if !c.TCPMux {
 		common.Transport.HeartbeatInterval, common.Transport.HeartbeatTimeout = 1, 3
 	}
+	var swallowed []net.Conn
+	var swMu sync.Mutex
+	defer func() {
+		swMu.Lock()
+		for _, cn := range swallowed {
+			cn.Close()
+		}
+		swMu.Unlock()
+	}()
 	cl, err := fx.StartClient(common, pcs, nil)
 	if err != nil {
 		return fx.Inconclusive("%v", err)
@@ -422,7 +436,37 @@ func runHeal(c HCase) error {
 	for k, o := range c.Outages {
 		time.Sleep(time.Duration(c.UpMs) * time.Millisecond)
 		s.Close()
-		time.Sleep(time.Duration(o) * time.Millisecond)
+		if k < len(c.Kinds) && c.Kinds[k] == "blackhole" {
+			// something still completes TCP handshakes on the server's port, reads what arrives and never answers
+			// nor closes (a frozen server behind a live kernel, a relay in front of a dead server)
+			var bl net.Listener
+			var le error
+			for try := 0; try < 20; try++ {
+				if bl, le = net.Listen("tcp", s.BindAddr()); le == nil {
+					break
+				}
+				time.Sleep(50 * time.Millisecond)
+			}
+			if le != nil {
+				return fx.Inconclusive("black hole listener: %v", le)
+			}
+			go func() {
+				for {
+					cn, e := bl.Accept()
+					if e != nil {
+						return
+					}
+					swMu.Lock()
+					swallowed = append(swallowed, cn)
+					swMu.Unlock()
+					go func() { _, _ = io.Copy(io.Discard, cn) }()
+				}
+			}()
+			time.Sleep(time.Duration(o) * time.Millisecond)
+			bl.Close() // the swallowed connections stay open and silent
+		} else {
+			time.Sleep(time.Duration(o) * time.Millisecond)
+		}
 		ns, e := fx.StartServerOn(blk, opts...)
 		if e != nil {
 			// the old listener may need a moment to go away
@@ -435,7 +479,11 @@ func runHeal(c HCase) error {
 		s = ns
 		// once the server is reachable again: logged in and all proxies carry traffic within the back-off ceiling
 		if e := tunnelsOK(20*time.Second + 4*time.Second + 4*time.Second); e != nil {
-			return fmt.Errorf("outage %d (%d ms): 28 s after the server came back the tunnels still do not work: %v", k, o, e)
+			kind := "down"
+			if k < len(c.Kinds) {
+				kind = c.Kinds[k]
+			}
+			return fmt.Errorf("outage %d (%s, %d ms, tls=%v tcpMux=%v): 28 s after the server came back the tunnels still do not work: %v", k, kind, o, c.TLS, c.TCPMux, e)
 		}
 	}
 	return nil
@@ -450,6 +498,10 @@ func TestHealing(t *testing.T) {
 					long = true
 				}
 			}
-			return fx.Class{NonTrivial: long || len(c.Outages) > 1, Fingerprint: fmt.Sprintf("%+v", c)}
+			var labels []string
+			for _, k := range c.Kinds {
+				labels = append(labels, "outage="+k)
+			}
+			return fx.Class{NonTrivial: long || len(c.Outages) > 1, Fingerprint: fmt.Sprintf("%+v", c), Labels: labels}
 		}})
 }
